@@ -586,7 +586,7 @@ Lemma dispatch_decoded_sound : forall ss path m h,
 Proof.
   induction ss as [|s t IH]; intros path m h H; cbn [dispatch_decoded] in H; [discriminate|].
   unfold flatten. cbn [map List.concat]. fold (flatten t).
-  destruct s as [[p routes]|prefix rs].
+  destruct s as [[p routes]|[p routes]|prefix rs].
   - destruct (pat_match p path) eqn:E.
     + destruct (find_route_In _ _ _ H) as [m' [Hi Em]].
       exists (mkRoute (pat_prepend EmptyString p) m' h). split.
@@ -594,6 +594,17 @@ Proof.
         apply in_map with (f := fun mh => mkRoute (pat_prepend EmptyString p) (fst mh) (snd mh)) in Hi. exact Hi.
       * cbn [r_pat r_method r_handler]. split; [|auto].
         destruct p; cbn [pat_prepend String.append]; exact E.
+    + destruct (IH _ _ _ H) as [r [Hr Hx]]. exists r. split; [apply in_or_app; right; exact Hr | exact Hx].
+  - destruct (pat_match p path) eqn:E.
+    + destruct (find_route routes m) as [h'| |] eqn:Ef.
+      * inversion H; subst h'. destruct (find_route_In _ _ _ Ef) as [m' [Hi Em]].
+        exists (mkRoute (pat_prepend EmptyString p) m' h). split.
+        -- apply in_or_app. left. cbn [flatten_service flatten_res].
+           apply in_map with (f := fun mh => mkRoute (pat_prepend EmptyString p) (fst mh) (snd mh)) in Hi. exact Hi.
+        -- cbn [r_pat r_method r_handler]. split; [|auto].
+           destruct p; cbn [pat_prepend String.append]; exact E.
+      * destruct (IH _ _ _ H) as [r [Hr Hx]]. exists r. split; [apply in_or_app; right; exact Hr | exact Hx].
+      * destruct (IH _ _ _ H) as [r [Hr Hx]]. exists r. split; [apply in_or_app; right; exact Hr | exact Hx].
     + destruct (IH _ _ _ H) as [r [Hr Hx]]. exists r. split; [apply in_or_app; right; exact Hr | exact Hx].
   - destruct (strip_scope prefix path) as [rest|] eqn:E.
     + apply strip_scope_spec in E. destruct (find_res_In _ _ _ _ H) as [p [routes [Hi [Hp Hf]]]].
